@@ -224,6 +224,13 @@ func (c *Ctx) Add(a, b *Term) *Term {
 	if b.IsConst() && b.C == 0 {
 		return a
 	}
+	// (x - a) + a = x ; a + (x - a) = x
+	if a.Op == "bvsub" && a.Args[1] == b {
+		return a.Args[0]
+	}
+	if b.Op == "bvsub" && b.Args[1] == a {
+		return b.Args[0]
+	}
 	return c.bin("bvadd", a.W, a, b)
 }
 func (c *Ctx) Sub(a, b *Term) *Term {
@@ -235,6 +242,18 @@ func (c *Ctx) Sub(a, b *Term) *Term {
 	}
 	if a == b {
 		return c.BV(0, a.W)
+	}
+	// (a + b) - a = b ; (a + b) - b = a ; a - (a - b) = b
+	if a.Op == "bvadd" {
+		if a.Args[0] == b {
+			return a.Args[1]
+		}
+		if a.Args[1] == b {
+			return a.Args[0]
+		}
+	}
+	if b.Op == "bvsub" && b.Args[0] == a {
+		return b.Args[1]
 	}
 	return c.bin("bvsub", a.W, a, b)
 }
@@ -281,6 +300,9 @@ func (c *Ctx) BvAnd(a, b *Term) *Term {
 	if a == b {
 		return a
 	}
+	if r := c.bitwiseSegs('&', a, b); r != nil {
+		return r
+	}
 	return c.bin("bvand", a.W, a, b)
 }
 func (c *Ctx) BvOr(a, b *Term) *Term {
@@ -301,6 +323,9 @@ func (c *Ctx) BvOr(a, b *Term) *Term {
 	if a == b {
 		return a
 	}
+	if r := c.bitwiseSegs('|', a, b); r != nil {
+		return r
+	}
 	return c.bin("bvor", a.W, a, b)
 }
 func (c *Ctx) BvXor(a, b *Term) *Term {
@@ -316,6 +341,26 @@ func (c *Ctx) BvXor(a, b *Term) *Term {
 	if a == b {
 		return c.BV(0, a.W)
 	}
+	// (p ^ q) ^ q = p
+	if a.Op == "bvxor" {
+		if a.Args[0] == b {
+			return a.Args[1]
+		}
+		if a.Args[1] == b {
+			return a.Args[0]
+		}
+	}
+	if b.Op == "bvxor" {
+		if b.Args[0] == a {
+			return b.Args[1]
+		}
+		if b.Args[1] == a {
+			return b.Args[0]
+		}
+	}
+	if r := c.bitwiseSegs('^', a, b); r != nil {
+		return r
+	}
 	return c.bin("bvxor", a.W, a, b)
 }
 
@@ -330,6 +375,15 @@ func (c *Ctx) Shl(a, b *Term) *Term {
 	if b.IsConst() && b.C == 0 {
 		return a
 	}
+	if b.IsConst() {
+		k := a.W
+		if b.C < uint64(a.W) {
+			k = int(b.C)
+		}
+		if r := c.shlConst(a, k); r != nil {
+			return r
+		}
+	}
 	return c.bin("bvshl", a.W, a, b)
 }
 func (c *Ctx) Lshr(a, b *Term) *Term {
@@ -341,6 +395,15 @@ func (c *Ctx) Lshr(a, b *Term) *Term {
 	}
 	if b.IsConst() && b.C == 0 {
 		return a
+	}
+	if b.IsConst() {
+		k := a.W
+		if b.C < uint64(a.W) {
+			k = int(b.C)
+		}
+		if r := c.lshrConst(a, k); r != nil {
+			return r
+		}
 	}
 	return c.bin("bvlshr", a.W, a, b)
 }
@@ -354,6 +417,15 @@ func (c *Ctx) Ashr(a, b *Term) *Term {
 	}
 	if b.IsConst() && b.C == 0 {
 		return a
+	}
+	if b.IsConst() {
+		k := a.W
+		if b.C < uint64(a.W) {
+			k = int(b.C)
+		}
+		if r := c.ashrConst(a, k); r != nil {
+			return r
+		}
 	}
 	return c.bin("bvashr", a.W, a, b)
 }
@@ -449,6 +521,9 @@ func (c *Ctx) Extract(a *Term, hi, lo int) *Term {
 	if a.IsConst() {
 		return c.BV(a.C>>uint(lo), w)
 	}
+	if isShuffle(a) {
+		return c.fromSegs(sliceSegs(c.segs(a), hi, lo))
+	}
 	if a.Op == "concat" {
 		// concat(hiPart, loPart)
 		lw := a.Args[1].W
@@ -475,9 +550,8 @@ func (c *Ctx) Concat(hi, lo *Term) *Term {
 	if hi.IsConst() && lo.IsConst() {
 		return c.BV(hi.C<<uint(lo.W)|lo.C, hi.W+lo.W)
 	}
-	// extract(x,h,m+1) ++ extract(x,m,l) = extract(x,h,l)
-	if hi.Op == "extract" && lo.Op == "extract" && hi.Args[0] == lo.Args[0] && hi.P[1] == lo.P[0]+1 {
-		return c.Extract(hi.Args[0], hi.P[0], lo.P[1])
+	if sa, sb := c.segs(hi), c.segs(lo); len(sa)+len(sb) <= maxSegs {
+		return c.fromSegs(append(append([]seg{}, sa...), sb...))
 	}
 	return c.mk(&Term{W: hi.W + lo.W, Op: "concat", Args: []*Term{hi, lo}})
 }
